@@ -8,7 +8,7 @@ import vxlib  # noqa: E402
 
 NAME = "U10"
 SRC = "passage-adapters/grpc/src/proto.rs"
-RULES = ["attrs", "format", "error_cause", "havoc_iter", "closure_wild", "try_desugar"]
+RULES = ["attrs", "format", "error_cause", "iter_loop", "closure_wild", "try_desugar"]
 
 
 def build(vacuity=False):
@@ -16,8 +16,8 @@ def build(vacuity=False):
     C = vxlib.load_contracts(os.path.join(HERE, "contracts.toml"))
     fnc = {k: vxlib.FnContract(k, v) for k, v in C.get("fn", {}).items()}
     sels = {
-        "proto.target_to_wire": {"self_ty": "Target", "trait": "From<&passage_adapters::Target>", "name": "from"},
-        "proto.target_from_wire": {"self_ty": "passage_adapters::Target", "trait": "TryFrom<Target>", "name": "try_from"},
+        "proto.target_to_wire": {"self_ty": "Target", "trait": "From<&passage_adapters::Target>", "name": "from", "collect_types": ["Vec<MetaEntry>"]},
+        "proto.target_from_wire": {"self_ty": "passage_adapters::Target", "trait": "TryFrom<Target>", "name": "try_from", "collect_types": ["MetaMap"]},
         "proto.address_to_socket": {"self_ty": "SocketAddr", "trait": "TryFrom<Address>", "name": "try_from"},
     }
     items = [{"key": k, "file": SRC, "kind": "impl_fn", "rules": RULES, "anchors": vxlib.anchors_for(fnc[k], vacuity), **v} for k, v in sels.items()]
